@@ -450,6 +450,15 @@ func c06WriteErrors(g *Gen) {
 func genC06(g *Gen) {
 	c06OutFileProbe(g)
 	c06RefusedExit(g)
+	for _, text := range []string{"a = 1 << 3\nreturn a << 12 + 1\n", "x = 2*1\ny = x + 1\nreturn y << 4 + x\n"} {
+		L := "err"
+		safe(func() {
+			if p, e := acc.LoadString(text); e == nil {
+				L = encInts(p.Chain)
+			}
+		})
+		readerFaultProbe(g, text, "", L)
+	}
 	c06LongLine(g)
 	c06WriteErrors(g)
 	// fixed cases: the documented shapes and the known delicate ones
